@@ -179,7 +179,7 @@ func report(prop, tier string, seed int, specs []HarnessSpec, known []KnownFindi
 	}
 
 	// replay-confirm violations (stale replay files of this property go first)
-	if old, _ := filepath.Glob(filepath.Join(verifDir, "evidence", "replays", prop+"-*")); len(old) > 0 && len(specBy) > 0 {
+	if old, _ := filepath.Glob(filepath.Join(evidenceDir(), "replays", prop+"-*")); len(old) > 0 && len(specBy) > 0 {
 		for _, f := range old {
 			os.Remove(f)
 		}
@@ -319,9 +319,9 @@ func report(prop, tier string, seed int, specs []HarnessSpec, known []KnownFindi
 			"explanation":                         "bounded symbolic execution of the real code from its go/ssa form, regenerated from /repo on this run; every assertion is an SMT query (pc AND NOT assertion) over all values of the symbolic inputs within the bounds listed per harness; nothing is claimed outside them",
 		},
 	}
-	os.MkdirAll(filepath.Join(verifDir, "evidence"), 0o755)
+	os.MkdirAll(filepath.Join(evidenceDir()), 0o755)
 	data, _ := json.MarshalIndent(ev, "", " ")
-	if err := os.WriteFile(filepath.Join(verifDir, "evidence", prop+".json"), data, 0o644); err != nil {
+	if err := os.WriteFile(filepath.Join(evidenceDir(), prop+".json"), data, 0o644); err != nil {
 		fatal("write evidence: %v", err)
 	}
 
